@@ -153,7 +153,9 @@ def run(facts, chk, tier, only=None):
 
     # record order cannot matter only if the accumulation tables are the IUPAC union in every cell (shared with C01.pal / C15.use)
     chk.guard('C02.union', 'C02.union:tables:run', lambda: c01.check_tables(facts, chk, 'C02.union:tables'))
-    chk.guard('C02.column', 'C02.column:run', lambda: c03.check_column(facts, chk, 'C02.column'))
+    # sample i (position in the input list) owns name i and column i, functionally (replaces the former shape rule C02.column)
+    from . import buildops
+    chk.guard('C02.func', 'C02.func:parallel_append:run', lambda: buildops.check_parallel_append(facts, chk, 'C02.func', tier))
     # a window is kept or dropped symmetrically at both record ends only if the end-of-record guards are tight
     # (a record and its reverse complement must yield the same windows): shared with C01.guard
     chk.guard('C02.window', 'C02.window:run', lambda: c01.check_guards(facts, chk, 'C02.window'))
